@@ -16,7 +16,14 @@ impl Engine for BpEngine {
     fn step(&mut self, toks: &[&str], out: &mut Vec<String>) {
         match toks {
             // run BOUND HIGH LOW THREADS NMSG MSGSIZE STALLMS LATECHANNEL(t|f)
-            ["run", bound, high, low, threads, nmsg, msgsize, stall, late] => {
+            ["run", bound, high, low, threads, nmsg, msgsize, stall, late, extra @ ..] => {
+                // optional: maxwrite=N (bytes a write call takes at most), release=all (the stall ends at
+                // once instead of in bursts), eintr=K (the K-th willing write call after the stall fails
+                // once with Interrupted)
+                let opt = |name: &str| extra.iter().find_map(|e| e.strip_prefix(name).and_then(|v| v.strip_prefix('=')));
+                let maxwrite: Option<usize> = opt("maxwrite").and_then(|v| v.parse().ok());
+                let release_all = opt("release") == Some("all");
+                let eintr: Option<usize> = opt("eintr").and_then(|v| v.parse().ok());
                 let p = |s: &str| s.parse::<usize>().ok();
                 let (bound, high, low, threads, nmsg, msgsize, stall) = match (p(bound), p(high), p(low), p(threads), p(nmsg), p(msgsize), p(stall)) {
                     (Some(a), Some(b), Some(c), Some(d), Some(e), Some(f), Some(g)) => (a, b, c, d, e, f, g),
@@ -74,6 +81,9 @@ impl Engine for BpEngine {
                 // everything so far is on the wire; now the transport stalls
                 std::thread::sleep(Duration::from_millis(30));
                 peer.set_budget(Some(0));
+                if let Some(m) = maxwrite {
+                    peer.set_max_write(m);
+                }
                 let written_at_stall = peer.written_len();
                 let accepted = Arc::new(AtomicUsize::new(0));
                 let t0 = Instant::now();
@@ -129,9 +139,17 @@ impl Engine for BpEngine {
                 // the transport drains in bursts
                 let mut seed = 12345u64;
                 let t1 = Instant::now();
+                if let Some(k) = eintr {
+                    peer.hiccup_write_after(k, std::io::ErrorKind::Interrupted);
+                }
+                if release_all {
+                    peer.set_budget(None);
+                }
                 loop {
                     seed = seed.wrapping_mul(6364136223846793005).wrapping_add(1442695040888963407);
-                    peer.grant(1 + (seed >> 33) as usize % 60000);
+                    if !release_all {
+                        peer.grant(1 + (seed >> 33) as usize % 60000);
+                    }
                     std::thread::sleep(Duration::from_millis(2));
                     if handles.iter().all(|h| h.is_finished()) || t1.elapsed() > Duration::from_secs(20) {
                         break;
@@ -221,6 +239,37 @@ impl Engine for BpEngine {
                     }
                 }
                 out.push(format!("wire ok={} {}", if ok { "t" } else { "f" }, detail));
+                // weaker, for runs in which the connection is expected to die: what did reach the wire is a
+                // clean prefix - whole frames (the last one possibly cut short), every channel's messages
+                // 0, 1, 2, ... without gap or repetition, each intact
+                {
+                    let data = peer.written();
+                    let (_h, frames, rest) = split_written(&data);
+                    let mut pbad = bad.clone();
+                    // the envelope splitter stops at garbage only by chance: check the end octets
+                    let mut off = 8usize;
+                    for (_ft, _ch, payload) in &frames {
+                        let end = off + payload.len() + 7;
+                        if data.get(end) != Some(&0xCE) && pbad.is_empty() {
+                            pbad = format!("frame ending at byte {} has end octet {:?}", end, data.get(end));
+                        }
+                        off = end + 1;
+                    }
+                    for (ft, _ch, _p) in &frames {
+                        if ![1u8, 2, 3, 8].contains(ft) && pbad.is_empty() {
+                            pbad = format!("frame type {}", ft);
+                        }
+                    }
+                    for c in 1..=threads {
+                        if per[c].iter().enumerate().any(|(i, k)| *k != i) && pbad.is_empty() {
+                            pbad = format!("channel {}: messages on the wire are not 0,1,2,...: first {:?}", c, per[c].iter().take(6).collect::<Vec<_>>());
+                        }
+                    }
+                    if rest.len() > 200000 && pbad.is_empty() {
+                        pbad = format!("{} stray bytes at the end", rest.len());
+                    }
+                    out.push(format!("wire-prefix ok={} {}", if pbad.is_empty() { "t" } else { "f" }, pbad));
+                }
                 // tear down
                 stop.store(true, Ordering::SeqCst);
                 peer.end(mock::Fault::Eof);
